@@ -26,7 +26,7 @@ ADDENDA = {
  "C01": " Also: the simple handshake run step by step on both sides with the first messages queued directly behind the last handshake packet (all 224 interleavings x 76/695 read segmentations); long sessions in which chunk/message/byte counts per stream and per connection reach 2^8 and 2^16 (thorough 2^24) at every phase of a multi-chunk message.",
  "C02": " Also family W: timestamp accumulation across 0xFFFFFF and 2^31 by every header type (26 moves per node, depth 4/5, 1-3 chunk messages); family Z: zero-length messages at every position followed by every legal header type. Family M: 2..320 (..65598) chunk streams opened across the 1-/2-/3-byte id forms, then every kind of return (16 headers) to 15 opening positions, a message pending across the opening, negatives after every opening. Family D: 25 local writes (own Set Chunk Size, messages, control packets, commands) at every position between the reads of the peer's stream - decoding depends on the peer's stream alone.",
  "C03": " Also: typed waits (ExpectMessage with every ordered selection of 1-3 of 7 types, ExpectPacket for 11 packet types) over every arrival order up to length 4/5 against a cursor model; every sequence of 1-3 (4/5) of 18 control-message kinds decoded by one Protocol in 9 modes with all returned packets kept and re-compared field by field; large packets (15 packet kinds + raw messages, payloads around 4096/8192/65536 and around the chunk size) after announced chunk sizes up to 2^31-1; packets re-observed after exactly one (two) change(s) of a field or nested property.",
- "C04": " Also: segmented and back-pressured transports, transaction ids that collide under integer conversion, and a transport write that fails (bytes delivered or not) at every write index. Also responses that match no recorded request (unused id, id 0, duplicates, replies to untracked calls) at every position around the tracked exchanges. Deferred decode: messages read 2, 3 or all at a time and decoded afterwards, a kept message must still equal the peer's bytes.",
+ "C04": " Also: segmented and back-pressured transports, transaction ids that collide under integer conversion, and a transport write that fails (bytes delivered or not) at every write index. Also responses that match no recorded request (unused id, id 0, duplicates, replies to untracked calls) at every position around the tracked exchanges. Deferred decode: messages read 2, 3 or all at a time and decoded afterwards, a kept message must still equal the peer's bytes. Reused transaction ids over stale records of another request kind.",
  "C05": " Also: every history of up to 4 (5) operations over Set/Get/nested Set/Size() on fresh and decoded containers against an ordered-map model; and near-valid byte strings (every small wire tree with one byte substituted/deleted/inserted or its terminator altered, followed by a sentinel): for accepted strings Size() equals the shortest decoding prefix and the sentinel decodes at that offset; independence of decoded values (one decoded leaf changed through every handle, the other decoded trees unchanged). Key-length family: names and strings of every length 0..300 and the 2^k boundaries up to 65535, pairs of name lengths, containers of 0..300 members.",
  "C06": " Also: retention - every ordered pair over 243 (870) values in four histories, a kept marshalled slice must stay the specification encoding after later marshals/decodes. Mutate family: every container-rooted tree x every reachable node x in-place overwrite / Set, from built and decoded origins, cold and after a first Size()+Marshal; root and ancestors re-marshalled and read by the independent decoder. Reuse family: typed UnmarshalBinary on used targets (zero value, constructor, conversion, Discovery, after successful and failing decodes) for every encoding of the type's alphabet. Key-length family in both directions (names / strings 0..300 and 2^k boundaries up to 65535). Every library decode runs on a private copy of the input that is overwritten after the call.",
  "C07": " Also: FLV tag bodies (every pair of leading bytes x every length 2..9); JOSE objects with one header/JWK member or serialisation part rewritten over a value alphabet; declared-size allocations (make/Grow accounted before they happen, 48 MiB + 256 per input byte per call) and, for RTMP, every sequence of up to 3 (4) chunk headers over 54 header shapes. JSON+ pump grid (5 lexical contexts x 16 scanner units); WebSocket also through ReadMessage; growth of declared-size allocations judged like growth of steps. ocsp.ParseResponseForCert with matching / non-matching / zero / negative serial numbers, with and without an issuer. WebSocket reader after the application's own Close, with the post-call invariant that the write token is back.",
@@ -36,9 +36,9 @@ ADDENDA = {
  "C12": " Also: parse -> change one exported field -> marshal against the ISO writer (all 256 headers x all 128 settable values, histories of depth 2/3), and parameter-set payloads whose leading bytes correlate with the record's profile/compatibility/level; one object receiving every sequence of 1-3 (4) UnmarshalBinary calls, compared with a fresh object. Header cube: all 256^3 (profile, compatibility, level) triples x 2 (3) bodies, and all reserved-bit patterns x NAL length sizes over 648 (6156) triples. Records are also read into a zero-value target. Afterfail: a conformant marshal after an unrepresentable one on the same object.",
  "C13": " Also: compression levels {-2,-1,0,1,9} (all -2..9) in every family, settings changed between messages, one prepared message shared by differently configured connections, and raw clients/servers speaking 19 extension offers / 10 responses and using context takeover whenever the negotiated response permits it; ReadFrom/io.Copy over the product of source chunkings x {EOF alone, EOF with the last bytes} x empty reads x layouts; receivers that call NextReader before the previous message was drained (13 behaviours, pairs and triples). Big frames: write buffers around 2^16 and 2^17 so that a single client/server frame reaches the 64-bit length form, x sizes x write APIs x compression, also over Dial/Upgrade. Unclosed writers: messages left open and implicitly closed by the next entry point, late calls on stale writers.",
  "C14": " Also: one Close frame for every code at the class boundaries (41; thorough all 65536) x 483 reasons built from 69 well- and ill-formed UTF-8 sequences, in 24 receiver states/configurations, and every byte string <= 3 (4) over the RFC 3629 boundary bytes as reason; the read limit with 0-2 (3) control frames in every slot between the fragments of messages around L and 2L. Length form as an independent coordinate (7/16/64-bit x decoded value incl. non-minimal encodings) for every opcode in 4 (7) contexts.",
- "C15": " Also: a one-shot transport write failure (timeout/plain error, nothing/half accepted) at every position of the write history, and WriteControl lock-wait timeouts as costed scheduler choices; every transport write must run under the write deadline its own caller set. Every exported write entry point (prepared messages in four cache configurations, WriteJSON, compressed paths, five Close routes) in scheduled scenarios and in sequential histories with transport failures at every write index. Open-writer family: control and data messages through every entry point while a data writer holds unflushed bytes.",
+ "C15": " Also: a one-shot transport write failure (timeout/plain error, nothing/half accepted) at every position of the write history, and WriteControl lock-wait timeouts as costed scheduler choices; every transport write must run under the write deadline its own caller set. Every exported write entry point (prepared messages in four cache configurations, WriteJSON, compressed paths, five Close routes) in scheduled scenarios and in sequential histories with transport failures at every write index. Open-writer family: control and data messages through every entry point while a data writer holds unflushed bytes. Delivery clause: every clean wire is replayed into a fresh peer Conn, which must deliver exactly the complete data messages in order.",
  "C16": " Also: multi-signature (general JSON) objects with every bit of every protected header, signature and payload flipped, and a header-injection family (crit, alg overrides, algorithm confusion, absent/empty signatures, forgeries by other keys) in the protected and unprotected header; signer/encrypter histories (one instance, 2-3 (4) calls with changing embed/nonce/compression/AAD, every object examined only afterwards); multi-recipient JWE over every ordered pair and triple of key-management algorithms with distinct keys; result retention (results, serialisations and inputs of one object held across operations on another).",
- "C18": " Also: every history of up to 4 (6) operations over Switch(3 writers)/Close/10 logging calls against a writer-state model, 13 scheduled pre-histories, and the 7 formatted variants with 13 (format, arguments) pairs; goroutines aliasing shared sources, with sync/atomic operations as scheduling points (R7). Operands passed by spreading slices with and without spare capacity, reused across calls and shared between goroutines; the caller's array must stay unchanged. Derived parents: WithContext / AliasContext over every context term of <= 6 (8) nodes against an id model.",
+ "C18": " Also: every history of up to 4 (6) operations over Switch(3 writers)/Close/10 logging calls against a writer-state model, 13 scheduled pre-histories, and the 7 formatted variants with 13 (format, arguments) pairs; goroutines aliasing shared sources, with sync/atomic operations as scheduling points (R7). Operands passed by spreading slices with and without spare capacity, reused across calls and shared between goroutines; the caller's array must stay unchanged. Derived parents: WithContext / AliasContext over every context term of <= 6 (8) nodes against an id model. Operand lists of every count 4..18 and 31..34.",
  "C19": " Also: 51 request targets (callback absent/empty/repeated/near-miss/percent-encoded) x 182 (407) handler kinds, and 118 string atoms (every C0/C1 control, DEL, invalid UTF-8, U+2028/9, astral runes, JSON syntax) through 26 carriers; one handler object serving 1-3 (4) requests while the value behind it changes, compared with a fresh handler; histories in which oh.Server and the Filter* variables change between responses; 6 (7) methods x 11 (19) request-body shapes x queries (the body never selects the callback). Plain errors with every Status() in 400..599.",
  "C20": " Also: lifecycle histories over Start/Close/sample/wait (restart, reads between sampling instants); prefixes of Close/reads/moves before the first Start (every read refused).",
 }
